@@ -268,6 +268,142 @@ def analyse_handshake(func):
     return True
 
 
+def _names_to_values(node, module, const, what):
+    """a literal list/tuple of protocol.MSG_* names, or a module-level name bound to one"""
+    if isinstance(node, ast.Name):
+        node = module_assign(module, node.id)
+    return [const(n) for n in msg_const_names(node, what)]
+
+
+def _server_facts_ast(server, sers, const):
+    hs = find_func(server, "_handshake", "Daemon")
+    hr = find_func(server, "handleRequest", "Daemon")
+
+    def types_of(func, what):
+        calls = calls_in(func, "recv_stub")
+        need(len(calls) == 1, "%s: expected exactly one recv_stub call, found %d" % (what, len(calls)))
+        c = calls[0]
+        need(len(c.args) == 2 and not c.keywords, "%s: recv_stub is not called as recv_stub(conn, [types])" % what)
+        return _names_to_values(c.args[1], server, const, what)
+    first = types_of(hs, "_handshake")
+    later = types_of(hr, "handleRequest")
+    ok_only = analyse_handshake(hs)
+    sid = [n for n in hs.body if isinstance(n, ast.Assign) and any(isinstance(t, ast.Name) and t.id == "serializer_id" for t in n.targets)]
+    need(len(sid) == 1 and attr_chain(sid[0].value) == ["serializers", "MarshalSerializer", "serializer_id"],
+         "_handshake: initial serializer_id is not serializers.MarshalSerializer.serializer_id")
+    mcls = find_class(sers, "MarshalSerializer")
+    mid = [n.value for n in mcls.body if isinstance(n, ast.Assign) and any(isinstance(t, ast.Name) and t.id == "serializer_id" for t in n.targets)]
+    need(len(mid) == 1, "MarshalSerializer.serializer_id not assigned exactly once")
+    dr = [n for n in ast.walk(hs) if isinstance(n, ast.If) and isinstance(n.test, ast.Name) and n.test.id == "denied_reason"]
+    need(len(dr) == 1 and len(dr[0].body) == 1 and isinstance(dr[0].body[0], ast.Raise) and not dr[0].orelse,
+         "_handshake: `if denied_reason: raise ...` not found exactly once")
+    return {"first": first, "later": later, "ok_only": ok_only, "marshal_id": int_expr(mid[0]), "deny_refuses": True}
+
+
+def _server_facts_probed(tree):
+    """The same facts, measured: the tree's own Daemon._handshake / handleRequest are run against a recording recv_stub and a
+    recording connection.  Recorded: the accepted-types argument of recv_stub; for a set of handshake situations (wrong first
+    message, validator raises, unknown object, unserialisable validator answer, refused by denied_reason, peer gone, accepted)
+    the type and serializer of the answer that was sent and the truthiness of the return value."""
+    import struct
+    from tools.gen.gen import tree_module
+    srvmod = tree_module(tree, "Pyro5.server")
+    proto = tree_module(tree, "Pyro5.protocol")
+    sers = tree_module(tree, "Pyro5.serializers")
+    errors = tree_module(tree, "Pyro5.errors")
+    need(srvmod.protocol is proto, "Pyro5.server does not use Pyro5.protocol of the tree")
+    mode = {"validator": "accept"}
+
+    class ProbeDaemon(srvmod.Daemon):
+        def validateHandshake(self, conn, data):
+            if mode["validator"] == "raise":
+                raise ValueError("probe: denied")
+            if mode["validator"] == "unserialisable":
+                return object()
+            return "hello"
+
+    class Conn(object):
+        def __init__(self):
+            self.sent = []
+            self.sock = None
+
+        def send(self, data):
+            self.sent.append(bytes(data))
+
+        def close(self):
+            pass
+
+    class Target(object):
+        @srvmod.expose
+        def ping(self):
+            return 1
+    ser = sers.serializers_by_id[sers.SerpentSerializer.serializer_id]
+
+    def connect(objid):
+        raw = bytes(proto.SendingMessage(proto.MSG_CONNECT, 0, 7, ser.serializer_id, ser.dumps({"handshake": "hello", "object": objid})).data)
+        return proto.ReceivingMessage(raw[:40], raw[40:])
+    seen_types = []
+    script = {}
+
+    def stub(connection, accepted_msgtypes=None):
+        seen_types.append(None if accepted_msgtypes is None else [int(t) for t in accepted_msgtypes])
+        r = script["recv"]
+        if isinstance(r, BaseException):
+            raise r
+        return r
+    d = ProbeDaemon(host="127.0.0.1", port=0)
+    real_stub = proto.recv_stub
+    results = {}
+    try:
+        d.register(Target(), "probe.obj")
+        proto.recv_stub = stub
+        situations = [("wrongtype", errors.ProtocolError("invalid msg type"), "accept", None),
+                      ("gone", errors.ConnectionClosedError("gone"), "accept", None),
+                      ("ok", connect("probe.obj"), "accept", None),
+                      ("validator", connect("probe.obj"), "raise", None),
+                      ("unknown", connect("probe.nope"), "accept", None),
+                      ("unserialisable", connect("probe.obj"), "unserialisable", None),
+                      ("denied", connect("probe.obj"), "accept", "probe: no room")]
+        for name, recv, vmode, denied in situations:
+            script["recv"], mode["validator"] = recv, vmode
+            conn = Conn()
+            k0 = len(seen_types)
+            try:
+                ret = d._handshake(conn, denied_reason=denied) if denied else d._handshake(conn)
+                raised = None
+            except Exception as x:      # escapes to the transport server, which closes the connection
+                ret, raised = False, x
+            need(len(seen_types) == k0 + 1, "_handshake called recv_stub %d times" % (len(seen_types) - k0))
+            sent = [(b[6], b[7]) for b in conn.sent if len(b) >= 40]
+            results[name] = {"ret": bool(ret), "sent": sent, "types": seen_types[-1], "raised": raised}
+        # handleRequest: only the accepted types are needed
+        script["recv"] = errors.ConnectionClosedError("gone")
+        k0 = len(seen_types)
+        try:
+            d.handleRequest(Conn())
+        except Exception:
+            pass
+        need(len(seen_types) == k0 + 1, "handleRequest called recv_stub %d times" % (len(seen_types) - k0))
+        later = seen_types[-1]
+    finally:
+        proto.recv_stub = real_stub
+        try:
+            d.close()
+        except Exception:
+            pass
+    firsts = {tuple(r["types"] or ()) for r in results.values()}
+    need(len(firsts) == 1 and None not in [r["types"] for r in results.values()], "_handshake does not always pass the same accepted types to recv_stub")
+    need(later is not None, "handleRequest accepts every message type")
+    ok_type, fail_type = int(proto.MSG_CONNECTOK), int(proto.MSG_CONNECTFAIL)
+    ok_only = all((not r["ret"]) or (len(r["sent"]) == 1 and r["sent"][0][0] == ok_type) for r in results.values())
+    need(results["ok"]["ret"] and results["ok"]["sent"] and results["ok"]["sent"][0][0] == ok_type,
+         "probe: a valid CONNECT for a registered object accepted by the validator is not answered CONNECTOK")
+    need(results["wrongtype"]["sent"] and results["wrongtype"]["sent"][0][0] == fail_type, "probe: a wrong first message is not answered CONNECTFAIL")
+    deny = (not results["denied"]["ret"]) and len(results["denied"]["sent"]) == 1 and results["denied"]["sent"][0][0] == fail_type
+    return {"first": list(firsts.pop()), "later": later, "ok_only": ok_only, "marshal_id": int(results["wrongtype"]["sent"][0][1]),
+            "deny_refuses": deny}
+
+
 def analyse_client(client_mod):
     """Proxy.__pyroCreateConnection: the handshake answer's payload is decoded by `X.loads(msg.data)`; is X (re)bound, in
     the same block and before that call, to serializers.serializers_by_id[msg.serializer_id] — the serializer named in the
@@ -316,28 +452,15 @@ def gen_handshake(tree):
         v = int_expr(module_assign(proto, name))
         need(v >= 0, name + " negative")
         return v
-    hs = find_func(server, "_handshake", "Daemon")
-    hr = find_func(server, "handleRequest", "Daemon")
-    first_names = recv_stub_types(hs, "_handshake")
-    later_names = recv_stub_types(hr, "handleRequest")
-    ok_only = analyse_handshake(hs)
-    # the first assignment of serializer_id in _handshake
-    sid = [n for n in hs.body if isinstance(n, ast.Assign) and any(isinstance(t, ast.Name) and t.id == "serializer_id" for t in n.targets)]
-    need(len(sid) == 1 and attr_chain(sid[0].value) == ["serializers", "MarshalSerializer", "serializer_id"],
-         "_handshake: initial serializer_id is not serializers.MarshalSerializer.serializer_id")
-    mcls = find_class(sers, "MarshalSerializer")
-    mid = [n.value for n in mcls.body if isinstance(n, ast.Assign) and any(isinstance(t, ast.Name) and t.id == "serializer_id" for t in n.targets)]
-    need(len(mid) == 1, "MarshalSerializer.serializer_id not assigned exactly once")
-    marshal_id = int_expr(mid[0])
-    # the ping branch of handleRequest: `if msg.type == protocol.MSG_X:` whose body builds a SendingMessage of that type
-    ping_names = []
-    for n in ast.walk(hr):
-        if isinstance(n, ast.If) and isinstance(n.test, ast.Compare) and len(n.test.ops) == 1 and isinstance(n.test.ops[0], ast.Eq):
-            l, r = attr_chain(n.test.left), attr_chain(n.test.comparators[0])
-            if l is not None and l[-1] == "type" and r is not None and len(r) == 2 and r[0] == "protocol" and r[1].startswith("MSG_"):
-                ping_names.append(r[1])
-    need(ping_names == ["MSG_PING"], "handleRequest: expected exactly one `msg.type == protocol.MSG_PING` branch, found %s" % ping_names)
-
+    try:
+        sf = _server_facts_ast(server, sers, const)
+        mode = "ast"
+    except GenError as x:
+        # a reshaped _handshake / handleRequest (helpers, renamed locals, constants moved): measure the same facts on the
+        # tree's own code with recording stubs instead of reading its syntax
+        sf = _server_facts_probed(tree)
+        mode = "probed (ast reader: %s)" % x
+    first_vals, later_vals, ok_only, marshal_id = sf["first"], sf["later"], sf["ok_only"], sf["marshal_id"]
     # thread server
     job_call = find_func(thr, "__call__", "ClientConnectionJob")
     n_hc = len(calls_in(job_call, "handleConnection"))
@@ -360,10 +483,7 @@ def gen_handshake(tree):
     need(len(dh) == 1 and any(k.arg == "denied_reason" for k in dh[0].keywords),
          "denyConnection does not call _handshake(..., denied_reason=...) exactly once")
     need(len(calls_in(deny, "close")) >= 1, "denyConnection does not close the socket")
-    # in _handshake the refusal is raised (inside the try statement whose handler answers CONNECTFAIL)
-    dr = [n for n in ast.walk(hs) if isinstance(n, ast.If) and isinstance(n.test, ast.Name) and n.test.id == "denied_reason"]
-    need(len(dr) == 1 and len(dr[0].body) == 1 and isinstance(dr[0].body[0], ast.Raise) and not dr[0].orelse,
-         "_handshake: `if denied_reason: raise ...` not found exactly once")
+    need(sf["deny_refuses"], "_handshake does not refuse when denied_reason is given")
     # multiplex server
     ev = find_func(mux, "events", "SocketServer_Multiplex")
     assigns = [n for n in ast.walk(ev) if isinstance(n, ast.Assign) and is_call_to(n.value, "_handleConnection")]
@@ -380,15 +500,15 @@ def gen_handshake(tree):
     mux_hc_guarded = truthy_return_only_under(mhc, "_handshake", lambda v: isinstance(v, ast.Name) and v.id == hconn)
     # client sockets are only ever handled by the events loop when they come from the selector: nothing else to check here
 
-    vals = {n: const(n) for n in set(first_names + later_names + ["MSG_CONNECT", "MSG_INVOKE", "MSG_PING"])}
+    vals = {n: const(n) for n in ["MSG_CONNECT", "MSG_INVOKE", "MSG_PING"]}
     out = HEADER % "Pyro5/server.py, svr_threads.py, svr_multiplex.py, protocol.py, serializers.py"
-    out += "(* Daemon._handshake: recv_stub(conn, [%s]) *)\n" % ", ".join(first_names)
-    out += "Definition hs_first_types : list N := %s.\n" % clist([cN(vals[n]) for n in first_names])
-    out += "(* Daemon.handleRequest: recv_stub(conn, [%s]) *)\n" % ", ".join(later_names)
-    out += "Definition req_types : list N := %s.\n" % clist([cN(vals[n]) for n in later_names])
+    out += "(* message types Daemon._handshake hands to recv_stub as the accepted ones *)\n"
+    out += "Definition hs_first_types : list N := %s.\n" % clist([cN(v) for v in first_vals])
+    out += "(* message types Daemon.handleRequest hands to recv_stub as the accepted ones *)\n"
+    out += "Definition req_types : list N := %s.\n" % clist([cN(v) for v in later_vals])
     out += "Definition t_connect : N := %s.\nDefinition t_invoke : N := %s.\nDefinition t_ping : N := %s.\n" % (
         cN(vals["MSG_CONNECT"]), cN(vals["MSG_INVOKE"]), cN(vals["MSG_PING"]))
-    out += "(* _handshake sets MSG_CONNECTOK only as the last statement of its try body and returns `answer type == MSG_CONNECTOK` *)\n"
+    out += "(* _handshake returns a truthy value only when the answer it sent was CONNECTOK *)\n"
     out += "Definition hs_ok_only : bool := %s.\n" % cbool(ok_only)
     out += "(* ClientConnectionJob.__call__: every handleRequest call under `if self.handleConnection()`: %s;\n" % thread_loop_guarded
     out += "   handleConnection returns True only under `if self.daemon._handshake(...)`: %s *)\n" % thread_hc_guarded
@@ -401,10 +521,9 @@ def gen_handshake(tree):
     out += "Definition deny_checked : bool := true.\n"
     out += "(* Proxy.__pyroCreateConnection decodes the handshake answer with serializers_by_id[<answer>.serializer_id] *)\n"
     out += "Definition client_uses_reply_ser : bool := %s.\n" % cbool(client_reply_ser)
-    info = {"first_types": [vals[n] for n in first_names], "later_types": [vals[n] for n in later_names],
-            "first_names": first_names, "later_names": later_names, "ok_only": ok_only,
+    info = {"first_types": first_vals, "later_types": later_vals, "mode": mode, "ok_only": ok_only,
             "thread_gate": thread_loop_guarded and thread_hc_guarded, "mux_gate": mux_reg_guarded and mux_hc_guarded,
             "marshal_id": marshal_id, "deny_reason": deny_reason, "client_uses_reply_ser": client_reply_ser, "t_connect": vals["MSG_CONNECT"], "t_invoke": vals["MSG_INVOKE"], "t_ping": vals["MSG_PING"],
-            "ast_sha": {"_handshake": ast_sha(hs), "handleConnection": ast_sha(hc), "__call__": ast_sha(job_call),
+            "ast_sha": {"handleConnection": ast_sha(hc), "__call__": ast_sha(job_call),
                         "events": ast_sha(ev), "_handleConnection": ast_sha(mhc)}}
     return out, info
